@@ -175,6 +175,22 @@ func parseArray(dec *msgpack.Decoder, r *bytes.Reader, total int) (*Skeleton, er
 	return skel, nil
 }
 
+// validateValue reports whether raw is exactly one well-formed msgpack value. Op values are
+// client-supplied bytes that SET / APPEND / PREPEND / INC splice into the body verbatim, so a
+// truncated value, an unknown type code or trailing bytes would turn a successful patch into a
+// body that no longer decodes.
+func validateValue(raw []byte) error {
+	r := bytes.NewReader(raw)
+	dec := msgpack.NewDecoder(r)
+	if err := dec.Skip(); err != nil {
+		return wrapInvalid(err)
+	}
+	if r.Len() != 0 {
+		return fmt.Errorf("%w: %d trailing bytes in value", ErrInvalidMsgpack, r.Len())
+	}
+	return nil
+}
+
 // leafBytes returns the raw msgpack bytes backing a leaf skeleton: either the
 // post-mutation RawBytes if set, otherwise the slice into the original blob.
 func leafBytes(s *Skeleton, orig []byte) []byte {
